@@ -1481,6 +1481,7 @@ Definition op_of_obs (o : obs) : option op :=
   | L [I 5; I v; I r; N] => Some (OSerial v (r =? 1) None)
   | L [I 5; I v; I r; a] => option_map (fun a => OSerial v (r =? 1) (Some a)) (arg_of_obs a)
   | L [I 6; a; I ty; I cov] => option_map (fun a => OGet a ty cov) (arg_of_obs a)
+  | L [I 6; a; I ty; I cov; I _] => option_map (fun a => OGet a ty cov) (arg_of_obs a)   (* rdtype / covers given as text *)
   | L [I 7; a] => option_map OExists (arg_of_obs a)
   | L [I 8] => Some OChanged
   | L [I 9] => Some OIter
@@ -1608,6 +1609,7 @@ Fixpoint add_flags (c : cfg) (probes : list name) (l : list obs) (b : list (list
    the node-object model must agree on results, content and node identities, the value-level model (the one
    `refines` is about) on results and content, and - for a B-tree zone - the B-tree model (flags, delegation
    index, glue bookkeeping) on results and content too; it contributes the node flags to the observation.
+   The reference store of `refines` is evaluated as well and must give the same result for every call.
    Otherwise the case is reported as a disagreement. *)
 Definition run_case (kind rel : Z) (origin probes hist : list obs) (idobs : bool) : obs :=
   match name_of_obs origin, names_of_obs probes, hist_of_obs hist with
@@ -1617,8 +1619,10 @@ Definition run_case (kind rel : Z) (origin probes hist : list obs) (idobs : bool
       let oh := obs_of_htxns c probes ([], []) (heap_hist c h ([], [])) in
       let ov := map (obs_of_txn c probes) (impl_hist c h []) in
       let bh := if kind =? 2 then btree_hist c h ([], []) else [] in
+      let results_of {Z0} (l : list (list (res out) * Z0)) := L (map (fun x => L (map obs_of_out (fst x))) l) in
       if obs_eqb (L (drop_rds_identity oo)) (L oh) && obs_eqb (L (drop_identity oh)) (L ov)
          && (if kind =? 2 then obs_eqb (L (map (obs_of_btxn c probes) bh)) (L ov) else true)
+         && obs_eqb (results_of (spec_hist c h [])) (results_of (impl_hist c h []))   (* the reference store, too *)
       then
         let base := if idobs then oo else drop_identity oh in
         L (if kind =? 2 then add_flags c probes base bh else base)
